@@ -207,4 +207,23 @@ Proof.
   f_equal. apply nth_repeat.
 Qed.
 
+(* a container built with some fields omitted is the container built from the value in which every omitted field
+   holds its type's zero value (same backing tree) *)
+Fixpoint fill_omitted (fs : list ty) (ovs : list (option val)) : list val :=
+  match fs, ovs with
+  | f :: fs', o :: ovs' => (match o with Some x => x | None => zero_val f end) :: fill_omitted fs' ovs'
+  | _, _ => []
+  end.
+
+Theorem omitted_fields_default fs ovs : forallb wf_ty fs = true -> length ovs = length fs ->
+  mk_container_partial H fs ovs = mk (TContainer fs) (VCont (fill_omitted fs ovs)).
+Proof.
+  intros Htys Hlen. unfold mk_container_partial. cbn [ModelViews.mk]. f_equal.
+  revert ovs Hlen. induction fs as [|f fs IH]; intros [|o ovs] Hlen; try discriminate; [reflexivity|].
+  cbn [forallb] in Htys. apply andb_true_iff in Htys as [Htf Htys]. cbn [fill_omitted].
+  assert (match o with Some x' => mk f x' | None => default_node f end = mk f (match o with Some x => x | None => zero_val f end)) as ->
+    by (destruct o; [reflexivity|now apply default_eq_mk]).
+  rewrite (IH Htys ovs) by (cbn in Hlen; lia). reflexivity.
+Qed.
+
 End WithHash.
